@@ -170,6 +170,7 @@ class AsyncBaton(object):
         self.finished = set()
         self.tids = []
         self.log = []
+        self.picks = []        # every scheduling decision, in order (a complete replayable schedule)
         self.cur = None
 
     async def park(self, tid, reason):
@@ -205,6 +206,7 @@ class AsyncBaton(object):
             steps += 1
             if steps > max_steps:
                 raise Deadlock("step budget exhausted")
+            self.picks.append(tid)
             fut, _ = self.parked.pop(tid)
             self.cur = tid
             fut.set_result(None)
